@@ -286,11 +286,18 @@ def r2_order(report, repo):
                'file is closed and renamed')
   tries = [n for n in walk_no_nested(f.node) if isinstance(n, ast.Try) and
            n.finalbody]
+  def fin_calls():
+    """calls made by the finally block, one level of module helpers deep"""
+    out = []
+    for s in tries[0].finalbody:
+      for c in core.calls_in(s):
+        out.append(c)
+        if isinstance(c.func, ast.Name) and repo.has_func(AW, c.func.id):
+          out.extend(core.calls_in(repo.func(AW, c.func.id).node))
+    return out
   ok = len(tries) >= 1 and any(
-      call_name(c) == 'os.remove' for s in tries[0].finalbody
-      for c in core.calls_in(s)) and not any(
-          call_name(c) in SINKS for s in tries[0].finalbody
-          for c in core.calls_in(s))
+      call_name(c) == 'os.remove' for c in fin_calls()) and not any(
+          call_name(c) in SINKS for c in fin_calls())
   report.check(ok, rule, f.qualname, 'cleanup', f.node,
                'the temp file is removed in the finally; the finally does not '
                'rename')
